@@ -4,10 +4,10 @@
 (* behaviours of SimThreads.tla: every announced access (thread, kind,        *)
 (* variable, value) is the `last` of some enabled specification step.         *)
 EXTENDS TraceBatch
-CONSTANTS Script, NEvents, Faulty, Stoppers, OnStart, OnStop, Fixes, AnyTimeout
-VARIABLES rs, rep, runflag, fin, flag, next, cur, endsOK, res, startsOK, segments, lateStop, staleStart, lateEnd, staleEnd, earlyStop, selfStart, pendingStart, cleaned, usedStart, usedStop, hret, wrote, afterStop, ctimedout, wtimedout, last, pc, i, ok
+CONSTANTS Script, NEvents, Faulty, Stoppers, Cleaners, OnStart, OnStop, Fixes, AnyTimeout
+VARIABLES rs, rep, runflag, fin, flag, next, cur, endsOK, res, startsOK, segments, lateStop, staleStart, lateEnd, staleEnd, earlyStop, selfStart, selfCleanup, pendingStart, cleaned, usedStart, usedStop, hret, wrote, afterStop, ctimedout, wtimedout, last, pc, i, ok
 ST == INSTANCE SimThreads
-stvars == <<rs, rep, runflag, fin, flag, next, cur, endsOK, res, startsOK, segments, lateStop, staleStart, lateEnd, staleEnd, earlyStop, selfStart, pendingStart, cleaned, usedStart, usedStop, hret, wrote, afterStop, ctimedout, wtimedout, last, pc, i, ok>>
+stvars == <<rs, rep, runflag, fin, flag, next, cur, endsOK, res, startsOK, segments, lateStop, staleStart, lateEnd, staleEnd, earlyStop, selfStart, selfCleanup, pendingStart, cleaned, usedStart, usedStop, hret, wrote, afterStop, ctimedout, wtimedout, last, pc, i, ok>>
 TraceInit == BatchInit /\ ST!Init
 Step == /\ Live /\ Consume /\ ST!Next
         /\ last'.t = Ev.t /\ last'.k = Ev.k /\ last'.v = Ev.v /\ last'.x = Ev.x
